@@ -41,7 +41,7 @@ def one(rng, with_past=False):
         g, lex = gram.extract_all(ts)
     enc = "|".join(proto.enc_tree(t) for t in ts)
     out = gram.enc_grammar(g) + " # " + gram.enc_lexicon(lex)
-    lines = [Line("corr", "extract", [enc], out),
+    lines = [Line("corr", "extract", [enc], out, canon=gram.canon_lexicon_part),
              Line("pred", "P.C06", [enc, gram.enc_grammar(g), gram.enc_lexicon(lex)])]
     # fan_out of every extracted linearization (at most a dozen per case)
     seen = 0
